@@ -52,6 +52,13 @@ func properties() []*propDef {
 			Assumptions: []string{"shopspring/decimal arithmetic is exact"},
 		},
 		{
+			ID: "C13", Title: "Conversion functions are mutually consistent and round-trip through strings",
+			Rules: []ruleFn{ruleCNV1, ruleCNV34, ruleTAB1},
+			Explanation: "CNV1: each convertsToT calls exactly toT on its own input and (SCCP with that call pinned) is true iff the result is non-empty and never an error. CNV3/CNV4: for each of the 8 targets x 11 input item forms (every System type, a FHIR primitive, a complex element) SCCP with the item's dynamic type pinned shows that toT never returns an error for a single item and that every non-empty result holds a value of dynamic type T; multi-item input is an error. TAB1: the table binds toT/convertsToT to the implementation of that name.",
+			NotDecided: []string{"which string texts convert (round trips through strings are run-time values)", "idempotence of toT on values", "the conversion table for values of convertible types"},
+			Assumptions: []string{"collections contain System values and FHIR messages"},
+		},
+		{
 			ID: "C16", Title: "Every built-in function is callable under its specification name and arity",
 			Rules: []ruleFn{ruleTAB1, ruleTAB2, ruleTAB3, ruleTAB4, ruleGLB1, ruleGLB2},
 			Explanation: "Exhaustive over both function tables as they stand in the working tree: TAB1 compares every key with the implementation bound to it (name agreement) and every exported implementation with its registration; TAB2 decides, for every entry and n=0..5, by conditional constant propagation under len(args)=n whether the implementation itself rejects the arity, and compares with the table bounds and the frozen FHIRPath N1 arities; TAB3 shows the placeholder errors on all paths; TAB4 shows VisitFunction constructs the call node iff the name was found and Min<=n<=Max.",
